@@ -29,7 +29,7 @@ run_demo() {
     rm -f "$WT/$d/zz_demo_test.go"
     return $rc
   elif [ -f "$D/demo.sh" ]; then
-    ( cd "$WT" && REPO="$WT" WT="$WT" bash "$D/demo.sh" "$WT" ) >/tmp/verify_demo.$$ 2>&1; return $?
+    ( cd "$WT" && JD_REPO="$WT" REPO="$WT" WT="$WT" bash "$D/demo.sh" "$WT" ) >/tmp/verify_demo.$$ 2>&1; return $?
   fi
   echo "no demo" > /tmp/verify_demo.$$; return 99
 }
